@@ -251,6 +251,9 @@ func runC15(r *core.Run) {
 						texts[i] = heads[c].text
 					}
 					doc := []byte(b.String())
+					// history clause, failed conversions included: the same document is first converted on the same instance
+					// into a writer that refuses every byte
+					_ = cv.MD.Convert(doc, c15Refuse{})
 					out, ok := mustConvert(s, cv, doc)
 					if !ok {
 						return 0
